@@ -151,6 +151,26 @@ fn c14_observe(bytes: &[u8], with_threads: bool, with_failed: bool) -> (Vec<u8>,
             }
         }
     }
+    // the std sinks a caller would really hand in: the bytes that arrive are the bytes a Vec receives (BufWriter with
+    // its default, a tiny and a 4 KiB buffer around a Vec; a Cursor; a LineWriter)
+    if with_failed || a.len() > 8000 {
+        use std::io::Write;
+        let mapping = cur::ProguardMapping::new(bytes);
+        let mut outs: Vec<Vec<u8>> = Vec::new();
+        for cap in [0usize, 1, 16, 4096] {
+            let mut bw = if cap == 0 { std::io::BufWriter::new(Vec::new()) } else { std::io::BufWriter::with_capacity(cap, Vec::new()) };
+            let ok = cur::ProguardCache::write(&mapping, &mut bw).is_ok() && bw.flush().is_ok();
+            outs.push(if ok { bw.into_inner().unwrap_or_default() } else { Vec::new() });
+        }
+        let mut cur_sink = std::io::Cursor::new(Vec::new());
+        outs.push(if cur::ProguardCache::write(&mapping, &mut cur_sink).is_ok() { cur_sink.into_inner() } else { Vec::new() });
+        let mut lw = std::io::LineWriter::new(Vec::new());
+        let ok = cur::ProguardCache::write(&mapping, &mut lw).is_ok() && lw.flush().is_ok();
+        outs.push(if ok { lw.into_inner().unwrap_or_default() } else { Vec::new() });
+        if outs.iter().any(|o| *o != a) {
+            flags |= 32;
+        }
+    }
     (a, flags)
 }
 
@@ -217,6 +237,9 @@ fn flag_sigs(flags: u64) -> Vec<&'static str> {
     }
     if flags & 16 != 0 {
         v.push("bytes-depend-on-an-earlier-failed-write");
+    }
+    if flags & 32 != 0 {
+        v.push("bytes-depend-on-the-std-sink");
     }
     v
 }
@@ -312,7 +335,7 @@ pub fn run_c14(tier: Tier) -> i32 {
         prop: "C14",
         tier,
         level: "exploration",
-        rule: format!("inputs enumerated exhaustively (MS-B depth <= {}, MS-C, MS-D, wide family with >= 6 keys per hash container, corpus files); every input is written in {} separately started processes with harness-owned hash seeds (getrandom shim) and 2 processes with OS seeds; in every process: two consecutive writes, for every 64th input two more writes from concurrent threads and eight writes with the mapping bytes placed at every address residue modulo 8 (also for every input containing non-ASCII bytes), for every 4th input four writes that FAIL part-way (the sink refuses everything after 0 / 24 / len/2 / len-1 bytes) each followed by a complete write on the same thread, and the length check against the header. All byte strings for one input must be identical. evaluations = inputs; distinct = distinct cache files", if t { 5 } else { 4 }, nseeds),
+        rule: format!("(for every 4th input and every cache above 8 kB also: the bytes arriving in BufWriter (default / 1 / 16 / 4096-byte buffer), Cursor and LineWriter sinks equal the bytes a Vec receives) inputs enumerated exhaustively (MS-B depth <= {}, MS-C, MS-D, wide family with >= 6 keys per hash container, corpus files); every input is written in {} separately started processes with harness-owned hash seeds (getrandom shim) and 2 processes with OS seeds; in every process: two consecutive writes, for every 64th input two more writes from concurrent threads and eight writes with the mapping bytes placed at every address residue modulo 8 (also for every input containing non-ASCII bytes), for every 4th input four writes that FAIL part-way (the sink refuses everything after 0 / 24 / len/2 / len-1 bytes) each followed by a complete write on the same thread, and the length check against the header. All byte strings for one input must be identical. evaluations = inputs; distinct = distinct cache files", if t { 5 } else { 4 }, nseeds),
         bounds: json!({"scopes": c14_spaces(t).iter().map(|s| { let mut d = s.describe(); if d.get("alphabet").is_some() { d["alphabet"] = json!("see pgmc/src/e1.rs"); } d }).collect::<Vec<_>>(), "processes": nprocs, "owned_seeds": nseeds, "distinct_iteration_orders": distinct_orders}),
         assumptions: vec!["the 2^128 seed space is not enumerable: seeds are a finite harness-owned set; exhaustive is the input dimension".into(), "std RandomState draws its per-thread keys through getrandom (interposed by the shim) and increments them for every new table".into()],
         trusted_base: vec!["rustc/std".into(), "getrandom shim /verif/shim/getrandom_shim.c".into()],
